@@ -163,6 +163,12 @@ def _degree(t, w, memo):
         return ds.pop() if len(ds) == 1 else None
     if k in ('cast', 'via'):
         return degree(t[2], w, memo)
+    if k in ('array', 'tuple') and t.args:
+        # a literal list of values handed to extend(): homogeneous when all of them have the same degree
+        ds = {degree(x, w, memo) for x in t.args}
+        return ds.pop() if len(ds) == 1 else None
+    if k == 'elem':
+        return degree(t[1], w, memo)
     if k == 'mut':
         # an accumulator read: base plus in-place updates
         d = degree(t[1], w, memo)
